@@ -29,6 +29,7 @@ EXPLANATION = (
     "R12.5 literal conversion (int/float of the lexeme, True/False/None, string value without quotes and "
     "lexeme kept for the name); R12.6 naming: every field __eq__ compares is rendered by __str__, and an "
     "injectivity detector (grouping erased + printer without parentheses => two different trees, one name)."
+    " R12.7 the used-variables extractor finds every data column a call mentions (C09's R9.4)."
 )
 ASSUMPTIONS = [
     "Python language reference, operator precedence table (6.17) and comparison chaining (6.10)",
